@@ -504,6 +504,7 @@ structure Endpoint where
   delivered : List Bytes := []                 -- frames handed to the handlers, newest first
   succeeded : List OutMsg := []                -- sends that returned nil, newest first
   failed : List OutMsg := []                   -- sends that returned an error, newest first
+  started : List OutMsg := []                  -- ghost: every message put on the line so far, newest first
   deriving Repr
 
 def Endpoint.init (isEquip : Bool) (deviceID limit : Nat) (queue : List OutMsg) : Endpoint :=
@@ -515,7 +516,7 @@ def Endpoint.load (e : Endpoint) : Endpoint :=
   match e.cur, e.queue with
   | none, m :: q =>
     (match splitBody m.body m.hdr with
-     | .ok (b :: bs) => { e with queue := q, cur := some (m, b :: bs), retry := 0 }
+     | .ok (b :: bs) => { e with queue := q, cur := some (m, b :: bs), retry := 0, started := m :: e.started }
      | _ => { e with queue := q, failed := m :: e.failed })
   | _, _ => e
 
@@ -577,6 +578,34 @@ def Line.step (l : Line) (f : Fault) : Line :=
 def Line.run (l : Line) : List Fault → Line
   | [] => l
   | f :: fs => (l.step f).run fs
+
+/-! ### Messages offered while the line is running (the straddle case)
+
+  `Write` may hand a new message to an endpoint at any moment — in particular while the peer is in the
+  middle of a multi-block message.  The endpoint's two receive paths — the idle path of `lineEngine`
+  (`sink(blk)` after an inbound ENQ) and the yield path of `sendBlock` (`deliver(recv)` after a contention
+  yield) — are the SAME per-generation sink, i.e. one assembler: both are `Endpoint.take`. -/
+
+abbrev Endpoint.takeIdle (e : Endpoint) (blk : Block) : Endpoint := e.take blk
+abbrev Endpoint.takeYield (e : Endpoint) (blk : Block) : Endpoint := e.take blk
+
+/-- `Write` hands a message to this endpoint's line engine. -/
+def Endpoint.offer (e : Endpoint) (m : OutMsg) : Endpoint := { e with queue := e.queue ++ [m] }
+
+inductive LineEvent where
+  | fault (f : Fault)
+  | offerMaster (m : OutMsg)
+  | offerSlave (m : OutMsg)
+  deriving Repr
+
+def Line.apply (l : Line) : LineEvent → Line
+  | .fault f => l.step f
+  | .offerMaster m => { l with master := l.master.offer m }
+  | .offerSlave m => { l with slave := l.slave.offer m }
+
+def Line.runEvents (l : Line) : List LineEvent → Line
+  | [] => l
+  | e :: es => (l.apply e).runEvents es
 
 /-- Nothing left to send anywhere. -/
 def Line.quiescent (l : Line) : Bool :=
